@@ -382,7 +382,9 @@ impl Reporter {
             }
             file = Value::String(p.display().to_string());
         }
-        if self.violations.len() < 10_000 {
+        // every occurrence that has a witness file is listed (bounded by signatures x MAX_WITNESS_PER_SIG), so
+        // that a rare signature first seen after many others still reaches the driver with its replay path
+        if !file.is_null() || self.violations.len() < 10_000 {
             self.violations.push(json!({"rule": rule, "sig": sig, "file": file}));
         }
     }
